@@ -101,7 +101,7 @@ Definition parse_block (o : opts) (rt : N) (hs : fields) (content : bytes) (fnd 
           let k1 fnd1 :=
             let fixit := negb found && o_fix_syntax o in
             let hb' := if fixit then hb ++ CRLF else hb in
-            let hs' := if fixit then m_set n_content_length (itoa (cl_value hs + 2)) hs else hs in
+            let hs' := if fixit then m_set n_content_length (itoa (wrap64 (cl_value hs + 2))) hs else hs in   (* int64 addition *)
             let payload := skipn (length hb) content in
             let isresp := has_prefix s_HTTP hb in
             let hbp := if negb found && negb (o_fix_syntax o) then hb ++ CRLF else hb' in
